@@ -55,6 +55,20 @@ def gen_cases(tier, seed):
                           "reopen": bool(rng.integers(0, 2)),
                           # the same columns in another order: accepted by the library (it compares sorted names), must land by name
                           "column_order_seed": int(rng.integers(1, 2 ** 31)) if (i + j) % 4 == 0 else None})
+        if i % 9 == 4:
+            # a categorical whose vocabulary GROWS from batch to batch (each label list a prefix of the next): more categories than the
+            # code width chosen for the first batch
+            base["frame"]["cols"].append({"name": "cm", "kind": "cat_many", "nulls": "none", "ncat": 10})
+            for j, st in enumerate(steps):
+                st["frame"]["cols"].append({"name": "cm", "kind": "cat_many", "nulls": "none", "ncat": [150, 300, 300, 700, 700, 700][min(j, 5)]})
+            base["growing_vocabulary"] = True
+        if i % 6 == 2:
+            # the dataset stores an UNNAMED row index (as column "index"); some appended frames come with a plain RangeIndex, whose
+            # values then become that column (the library resets the index of every appended frame when the dataset stores one)
+            base["frame"]["index"] = {"kind": "int"}
+            for j, st in enumerate(steps):
+                st["frame"]["index"] = None if j % 2 == 0 else {"kind": "int"}
+            base["mixed_index_appends"] = True
         base["steps"] = steps
         cases.append(base)
     return cases
